@@ -61,6 +61,10 @@ macro_rules! flavour_impl {
 
             fn dump_nodes(&self, which: &[&Node<K, N, E>]) -> Value {
                 let keys: Vec<K> = self.nodes.iter().map(|n| *n.key()).collect();
+                Self::dump_nodes_with(which, &keys)
+            }
+
+            fn dump_nodes_with(which: &[&Node<K, N, E>], keys: &[K]) -> Value {
                 let mut out = vec![];
                 for n in which {
                     let mut self_ok = true;
@@ -98,6 +102,36 @@ macro_rules! flavour_impl {
                     });
                 }
                 Value::Array(out)
+            }
+
+            fn deserialize_doc(doc: &Value) -> Value {
+                // 'err' elements become an ill-typed element; absent elements shorten the outer sequence
+                let mut outer: Vec<Value> = vec![];
+                let mut order: Vec<K> = vec![];
+                if !doc["nodes"].is_null() {
+                    if doc["nodes"].as_str() == Some("err") { outer.push(json!("ill-typed")); } else {
+                        for r in doc["nodes"].as_array().unwrap() { let k = us(&r[0]); if !order.contains(&k) { order.push(k); } }
+                        outer.push(doc["nodes"].clone());
+                    }
+                    if !doc["edges"].is_null() {
+                        if doc["edges"].as_str() == Some("err") { outer.push(json!("ill-typed")); } else { outer.push(doc["edges"].clone()); }
+                    }
+                }
+                let text = serde_json::to_string(&Value::Array(outer.clone())).unwrap();
+                let g2: Result<Graph<K, N, E>, _> = serde_json::from_str(&text);
+                let bytes = serde_cbor::to_vec(&Value::Array(outer)).unwrap();
+                let g3: Result<Graph<K, N, E>, _> = serde_cbor::from_slice(&bytes);
+                let view = |gg: &Graph<K, N, E>| -> Value {
+                    let ms: Vec<Node<K, N, E>> = order.iter().filter_map(|k| gg.get(k)).collect();
+                    let keys: Vec<K> = ms.iter().map(|n| *n.key()).collect();
+                    json!({"result": "ok", "len": gg.len(), "members": Self::dump_nodes_with(&ms.iter().collect::<Vec<_>>(), &keys)})
+                };
+                match (g2, g3) {
+                    (Ok(a), Ok(b)) => { let (va, vb) = (view(&a), view(&b)); let mut o = va.clone(); o["cbor_same"] = json!(va == vb); o }
+                    (Err(_), Err(_)) => json!({"result": "err"}),
+                    (Ok(_), Err(e)) => json!({"result": "ok", "cbor_same": false, "cbor_error": format!("{}", e)}),
+                    (Err(e), Ok(_)) => json!({"result": "err", "cbor_same": false, "json_error": format!("{}", e)}),
+                }
             }
 
             fn alias_of(&self, n: &Node<K, N, E>) -> Option<usize> {
@@ -174,8 +208,12 @@ macro_rules! flavour_impl {
             }
 
             fn dump_lite(&self) -> Value {
+                Self::dump_lite_of(&self.nodes.iter().collect::<Vec<_>>())
+            }
+
+            fn dump_lite_of(which: &[&Node<K, N, E>]) -> Value {
                 let mut out = vec![];
-                for n in &self.nodes {
+                for n in which {
                     sel!($kind, {
                         let o: Vec<Value> = n.iter_out().map(|Edge(_, v, e)| json!([*v.key(), e])).collect();
                         let i: Vec<Value> = n.iter_in().map(|Edge(u, _, e)| json!([*u.key(), e])).collect();
@@ -391,6 +429,9 @@ macro_rules! flavour_impl {
                     let n = self.nodes[us(&a[1])].clone();
                     return json!(self.graph.as_mut().unwrap().insert(n));
                 }
+                if op == "g_deserialize" {
+                    return Self::deserialize_doc(&a[1]);
+                }
                 if op == "g_remove" {
                     let r = self.graph.as_mut().unwrap().remove(&us(&a[1]));
                     return match r { Some(n) => self.node_obs(&n), None => Value::Null };
@@ -406,6 +447,29 @@ macro_rules! flavour_impl {
                     "g_orphans" => json!(g.orphans().iter().map(|n| self.alias_of(n)).collect::<Vec<_>>()),
                     "g_iter" => json!(g.iter().map(|(k, n)| json!([*k, self.alias_of(n)])).collect::<Vec<_>>()),
                     "g_to_dot" => json!(g.to_dot()),
+                    "g_roundtrip" => {
+                        let text = serde_json::to_string(g).unwrap();
+                        let docv: Value = serde_json::from_str(&text).unwrap();
+                        let doc = json!({"nodes": docv[0], "edges": docv[1]});
+                        let g2: Result<Graph<K, N, E>, _> = serde_json::from_str(&text);
+                        let bytes = serde_cbor::to_vec(g).unwrap();
+                        let g3: Result<Graph<K, N, E>, _> = serde_cbor::from_slice(&bytes);
+                        let mut keys: Vec<K> = vec![];
+                        for n in &self.nodes { if !keys.contains(n.key()) { keys.push(*n.key()); } }
+                        let view = |gg: &Graph<K, N, E>| -> Value {
+                            let ms: Vec<Node<K, N, E>> = keys.iter().filter_map(|k| gg.get(k)).collect();
+                            let extra: Vec<K> = gg.iter().map(|(k, _)| *k).filter(|k| !keys.contains(k)).collect();
+                            json!({"dump": Self::dump_lite_of(&ms.iter().collect::<Vec<_>>()), "len": gg.len(), "extra": extra})
+                        };
+                        match (g2, g3) {
+                            (Ok(a), Ok(b)) => {
+                                let (va, vb) = (view(&a), view(&b));
+                                json!({"doc": doc, "graph2": va["dump"], "len2": va["len"], "cbor_same": va == vb})
+                            }
+                            (Err(e), _) => json!({"doc": doc, "graph2": format!("err:{}", e)}),
+                            (_, Err(e)) => json!({"doc": doc, "graph2": format!("err:cbor:{}", e)}),
+                        }
+                    }
                     _ => self.step_graph_flavour(op, a),
                 }
             }
